@@ -56,8 +56,9 @@ type SimKMS struct {
 	Keys                             []*simKey // creation order
 	Calls                            int
 	Polls                            int
-	FailAt                           int // RPC index that fails with Unavailable (-1: none)
+	FailAt                           int    // RPC index that fails with Unavailable (-1: none)
 	FailedRPC, FailedArg             string // the RPC the injected failure hit (name, short resource)
+	HangGets                         int    // the next n GetCryptoKeyVersion calls block until their context ends
 	// Paging policy: 0 exact pages; 1 short pages (1..page_size items, token while more remain);
 	// 2 exact pages, but a listing that ends exactly on a page boundary gets one more, empty page;
 	// 3 one-element pages; 4 like 1, and additionally some requests are answered with an EMPTY page
@@ -296,8 +297,19 @@ func (s *SimKMS) CreateCryptoKeyVersion(_ context.Context, req *kmspb.CreateCryp
 	})
 }
 
-func (s *SimKMS) GetCryptoKeyVersion(_ context.Context, req *kmspb.GetCryptoKeyVersionRequest, _ ...grpc.CallOption) (*kmspb.CryptoKeyVersion, error) {
+func (s *SimKMS) GetCryptoKeyVersion(ctx context.Context, req *kmspb.GetCryptoKeyVersionRequest, _ ...grpc.CallOption) (*kmspb.CryptoKeyVersion, error) {
 	s.Polls++
+	if s.HangGets > 0 {
+		// a service that does not answer: the call ends when the caller's context does (only drawn
+		// for contexts that have a deadline)
+		s.HangGets--
+		if s.Calls++; s.Calls > s.Bound && s.Exceeded != nil {
+			s.Exceeded()
+		}
+		s.R.Fault("kms-get-hangs", "%s", short(req.GetName()))
+		<-ctx.Done()
+		return nil, status.FromContextError(ctx.Err()).Err()
+	}
 	return rpc(s, "GetCryptoKeyVersion", short(req.GetName()), false, func() (*kmspb.CryptoKeyVersion, error) {
 		v := s.version(req.GetName())
 		if v == nil {
